@@ -1,6 +1,7 @@
 """C03 - fixed-lambda smoothers return the rounded PLS / expectile curve."""
 from __future__ import annotations
 
+import sys
 import numpy as np
 import pandas as pd
 import xarray as xr
@@ -188,3 +189,9 @@ def run(ctx):
                       "p" if "p" in case else "nop"] + (["near_nodata_valid_cell"] if case.get("near") else []) + (["sg:-inf"] if case["mode"] == "sg" and "-Infinity" in [str(v) for v in case["sg"]] else []))
 
     ctx.given("accessor", accessor_case(), ctx.n(250, 3000), fn=f_acc)
+
+
+from harness import history as _history  # noqa: E402
+
+_history.install(sys.modules[__name__], {"whits": _history.q_whits}, {"whits": _history.WHITS_ARGS}, n=(120, 1500), dtypes=("int16", "float64"),
+                 attr_values=(-3000, 0, -9999), cells=_history.NDVI_CELLS)
